@@ -14,16 +14,21 @@ def consts(insts, stop, dev, compress=False, ops=OPS, timeouts='{2,3}', ticks='{
 GRIDS = [(1.0, 1.0), (0.0, 0.125), (2.0, 0.5), (0.1, 0.05)]      # (start, dt) of the reference model; the specification counts steps
 
 
+NUMERIC_NAMES = {"base": "1", "high": "2030"}     # scenario names that look like numbers (years, ordinals)
+
+
 def replay_set(R, hs, compress, known_total, probe=True, grid=(1.0, 1.0)):
-    for hist in hs:
+    for n_h, hist in enumerate(hs):
         known = []
-        bad = srv_replay.replay(hist, stop=4, adapter=True, compress=compress, base_constants=True, probe=probe, known=known, two=True, grid=grid)
+        names = NUMERIC_NAMES if n_h % 3 == 2 else None
+        bad = srv_replay.replay(hist, stop=4, adapter=True, compress=compress, base_constants=True, probe=probe, known=known, two=True, grid=grid, names=names)
         R.add("traces_validated_against_impl")
         for k in known:
             known_total[k[0]] = known_total.get(k[0], 0) + 1
         if bad:
             bad["compress"] = compress
             bad["model_grid"] = {"start": grid[0], "dt": grid[1]}
+            bad["scenario_names"] = names or "base / high"
             R.violation(bad["clause"], bad)
             if len(R.violations) >= 20:
                 return False
